@@ -49,8 +49,14 @@ pub fn prove_body(
                         }
                     }
 
-                    // Last resort: enumerate candidates
-                    if matches.is_empty() && ctx.is_derived(&atom.relation) {
+                    // Last resort: enumerate candidates - unless the relation's derived
+                    // facts were supplied. Then they are all known and none matches; the
+                    // enumeration could only re-derive that, re-proving the bodies of
+                    // recursive rules without a memo (exponential in the depth limit).
+                    let facts_known = ctx
+                        .derived_data
+                        .is_some_and(|d| d.contains_key(&atom.relation));
+                    if matches.is_empty() && ctx.is_derived(&atom.relation) && !facts_known {
                         matches = enumerate_derived_candidates(
                             &atom.relation,
                             &bound,
